@@ -1,5 +1,6 @@
 import PPProofs.Lemmas.ParseRename
 import PPProofs.Lemmas.SugarCheck
+import PPProofs.Lemmas.AndFlatten
 /-!
 # C12 — grammar objects have value semantics; operator sugar means what is documented
 
@@ -154,5 +155,111 @@ theorem copy_equiv (g : Grammar) (hc : Closed g) (e : Nat) (nd nd' : Node) (he :
   rw [this]
   show parse (g ++ [nd']) s f (if g.length = g.length then e else g.length) loc a c = _
   rw [if_pos rfl]
+
+/-! ### the in-place flattening of `streamline` -/
+
+/-- **and_flatten (partial).** `And[pre…, N, post…]` with `N = And[b, ns…]` parses like `And[pre…, b, ns…, post…]`
+    — every input, location, actions on/off — for every parse function `P` that never lets a raw IndexError out
+    (`NoIdx`, cf. C06) and satisfies the equation of `_parseNoCache` at `N` and at `b`, PROVIDED the decidable flag
+    condition `flattenHyp` holds (evaluated by the driver on the flags of the live objects): `N` has no parse action;
+    an `_ErrorStop` inside `N` only if nothing follows `N`; and, unless `N` is the first element: `N.callPreparse`,
+    `b.callPreparse`, `b` is not an `_ErrorStop`, `b` does not override `preParse` (LineStart), and `N`'s
+    skipWhitespace / whiteChars / ignoreExprs are `b`'s.
+    PARTIAL: stated for one call level of a parse function that is a fixed point at `N` and `b`; the lift to
+    `parse g s fuel` of the whole rewritten table (fuel shift by one per flattened level, through Forward cycles) is
+    not proved.  The full statement would be: for the table `g'` obtained from `g` by `streamlineAnd`,
+    `(∃ f, parse g s f i … = o ≠ hang) ↔ (∃ f, parse g' s f i … = o ≠ hang)` for every node `i`. -/
+theorem and_flatten_partial (g : Grammar) (s : List Char) (P : P) (hni : NoIdx P) (O O' N : Node)
+    (pre post ns : List Nat) (n b : Nat) (hN : g[n]? = some N) (hNk : N.kind = .and (b :: ns))
+    (hO : O.kind = .and (pre ++ n :: post)) (hO' : O'.kind = .and (pre ++ (b :: ns ++ post)))
+    (hyp : flattenHyp g pre n post = true)
+    (eqN : ∀ loc a c, P n loc a c = parseStep g s P n loc a c)
+    (eqB : ∀ loc a c, P b loc a c = parseStep g s P b loc a c) (loc : Nat) (a : Bool) :
+    parseImpl g P O s loc a = parseImpl g P O' s loc a := by
+  have e1 : parseImpl g P O s loc a = andImpl P (isStopOf g) a s.length (pre ++ n :: post) loc := by
+    unfold parseImpl; rw [hO]; rfl
+  have e2 : parseImpl g P O' s loc a = andImpl P (isStopOf g) a s.length (pre ++ (b :: ns ++ post)) loc := by
+    unfold parseImpl; rw [hO']; rfl
+  rw [e1, e2]
+  unfold flattenHyp at hyp
+  rw [hN] at hyp
+  simp only [hNk, Bool.and_eq_true, Bool.or_eq_true, List.isEmpty_iff, List.all_eq_true, Bool.not_eq_true'] at hyp
+  obtain ⟨⟨hacts, hstops⟩, hpos⟩ := hyp
+  have ctx : FlatCtx g s P n b N ns post := ⟨hni, hN, hNk, hacts, hstops, eqN⟩
+  cases pre with
+  | nil => exact and_flatten_head_impl g s P n b N ns post ctx loc a
+  | cons e0 pre' =>
+    rcases hpos with hpos | hpos
+    · cases hpos
+    · obtain ⟨⟨hNc, hsb⟩, hB⟩ := hpos
+      cases hb : g[b]? with
+      | none => rw [hb] at hB; cases hB
+      | some B =>
+        rw [hb] at hB
+        have step := and_flatten_inner_step g s P n b N B ns post ctx hb hNc hsb hB eqB a
+        unfold andImpl
+        simp only [List.cons_append]
+        cases P e0 loc a false with
+        | ok l ts => exact andRest_congr_tail P (isStopOf g) a s.length _ _ step pre' false l ts
+        | fail c l => rfl
+        | idx => rfl
+        | hang => rfl
+
+/-! ### what `streamline` does to the table, and the witnesses outside `flattenHyp` -/
+
+def mkNode (k : Kind) (skip : Bool) (white : List Char) : Node :=
+  { kind := k, skipWs := skip, white := white, callPre := true, mayIdx := false, ignore := [], acts := [],
+    callDuringTry := false, nameLen := 1 }
+
+def dw : List Char := [' ', '\t', '\n', '\r']
+
+/-- 0 = And[1, 2] (nested), 1 = 'a', 2 = And[3, 4], 3 = LineStart, 4 = 'b', 5 = And[1, 3, 4] (flat) -/
+def exLS : Grammar :=
+  [ mkNode (.and [1, 2]) true dw, mkNode (.lit1 'a') true dw, mkNode (.and [3, 4]) false [' ', '\t', '\r'],
+    mkNode (.lineStart [' ', '\t', '\r'] true) false [' ', '\t', '\r'], mkNode (.lit1 'b') true dw,
+    mkNode (.and [1, 3, 4]) true dw ]
+
+def Out.cls : Out → Nat
+  | .ok _ _ => 0
+  | .fail .parse _ => 1
+  | .fail .fatal _ => 2
+  | .fail .syntax _ => 3
+  | .idx => 4
+  | .hang => 5
+
+/-- `streamlineAnd` turns node 0 into node 5's list … -/
+example : (streamlineAnd exLS (exLS[0]'(by decide))).kind = .and [1, 3, 4] := by decide
+/-- … but the flag condition fails (LineStart overrides preParse) and the two DO parse differently on "a\nb":
+    the nested form fails, the flat form matches — `Literal('a') + (LineStart() + 'b')` before and after streamline -/
+theorem and_flatten_fails_lineStart :
+    flattenHyp exLS [1] 2 [] = false ∧
+    (parse exLS ['a', '\n', 'b'] 6 0 0 true true).cls = 1 ∧ (parse exLS ['a', '\n', 'b'] 6 5 0 true true).cls = 0 := by
+  decide
+
+/-- 0 = And[1, 5] (nested), 1 = And[2, 3, 4] = 'x' - 'y', 2 = 'x', 3 = _ErrorStop, 4 = 'y', 5 = 'b',
+    6 = And[2, 3, 4, 5] (flat) -/
+def exStop12 : Grammar :=
+  [ mkNode (.and [1, 5]) true dw, mkNode (.and [2, 3, 4]) true dw, mkNode (.lit1 'x') true dw,
+    mkNode .errorStop false dw, mkNode (.lit1 'y') true dw, mkNode (.lit1 'b') true dw,
+    mkNode (.and [2, 3, 4, 5]) true dw ]
+
+/-- an `_ErrorStop` inside the nested And guards only the nested part: on "xyc" the nested form raises a
+    ParseException, the flat one a ParseSyntaxException — `And([x - y, b])` vs `x - y + b` -/
+theorem and_flatten_fails_errorStop :
+    flattenHyp exStop12 [] 1 [5] = false ∧
+    (parse exStop12 ['x', 'y', 'c'] 6 0 0 true true).cls = 1 ∧ (parse exStop12 ['x', 'y', 'c'] 6 6 0 true true).cls = 3 := by
+  decide
+
+/-- non-vacuity of `and_flatten_partial`: `'a' + ('b' + 'c')`, all default flags — the condition holds … -/
+def exOK : Grammar :=
+  [ mkNode (.and [1, 2]) true dw, mkNode (.lit1 'a') true dw, mkNode (.and [3, 4]) true dw,
+    mkNode (.lit1 'b') true dw, mkNode (.lit1 'c') true dw, mkNode (.and [1, 3, 4]) true dw ]
+example : flattenHyp exOK [1] 2 [] = true ∧ (streamlineAnd exOK (exOK[0]'(by decide))).kind = .and [1, 3, 4] := by decide
+/-- … and both forms give the same outcome -/
+example : (parse exOK ['a', ' ', 'b', 'c'] 6 0 0 true true).cls = 0 ∧ (parse exOK ['a', ' ', 'b', 'c'] 6 5 0 true true).cls = 0 := by
+  decide
+/-- non-vacuity of `frame` / `copy_equiv` / `sim_parse_eq`: the table is closed; node 5 simulates node 0's flat list -/
+example : closedCheck exOK = true := by decide
+example : simCheck exOK exOK [(3, 3), (4, 4)] = true := by decide
 
 end PP.Parse
